@@ -123,7 +123,7 @@ func drawC01(t *rapid.T) C01Case {
 		Accruals:   rapid.IntRange(0, 2).Draw(t, "accruals") == 0,
 		Assertions: true, Closes: true, Perf: true,
 		Prices:    1,
-		MaxDec:    rapid.SampledFrom([]int{2, 4, 8}).Draw(t, "maxDec"),
+		MaxDec:    rapid.SampledFrom([]int{2, 4, 8, 12}).Draw(t, "maxDec"),
 		Unicode:   rapid.IntRange(0, 5).Draw(t, "unicode") == 0,
 		WideDates: true,
 	}
@@ -133,6 +133,9 @@ func drawC01(t *rapid.T) C01Case {
 	}
 	c := C01Case{Text: ref.RenderAll(j.Directives), Journal: j}
 	c.Flags = gen.DrawBalFlags(t, j, gen.FlagOpts{Mappings: true, Remap: true, Valuation: true, Exact: true})
+	if cfg.MaxDec > 8 && !c.Flags.CSV {
+		c.Flags.Digits = 14 // exact for quantities with up to 12 decimals (values are cut at 8 anyway)
+	}
 	for _, d := range j.Directives {
 		if d.Kind == ref.KTrx {
 			c.NTrx++
